@@ -681,6 +681,12 @@ impl LdapConnAsync {
         Self::conn_pair(ConnType::Verif(io))
     }
 
+    #[cfg(ldap3_verif)]
+    /// Verification hook: give up the connection and keep its codec.
+    pub(crate) fn verif_into_codec(self) -> LdapCodec {
+        self.stream.into_parts().codec
+    }
+
     fn conn_pair(ctype: ConnType) -> (Self, Ldap) {
         #[cfg(feature = "gssapi")]
         let client_ctx = Arc::new(Mutex::new(None));
